@@ -86,6 +86,7 @@ func (publisherSelf *PublisherDef[T]) Publish(result T) {
 	})
 
 	for _, s := range subscribers {
+		s := s // one variable per iteration: doSub may run later, on the subOn handler
 		if s.OnNext != nil {
 
 			doSub := func() {
